@@ -121,11 +121,11 @@ PROPS = {
     "C06": {
         "level": "exploration",
         "jobs": {
-            "quick": [job("sim", "mux", "verif", "c06", 8), job("micro-close", "mux", "verif", "c12", 4, extra=["--only", "close"])],
-            "thorough": [job("sim", "mux", "verif", "c06", 16), job("dev", "mux", "dev", "c06", 8, extra=["--scale", "0.05"]), job("micro-close", "mux", "verif", "c12", 16, extra=["--only", "close"])],
+            "quick": [job("sim", "mux", "verif", "c06", 8), job("micro-close", "mux", "verif", "c12", 4, extra=["--only", "close"]), job("thr-abort", "mux", "verif", "c06", 4, extra=["--engine", "thr"])],
+            "thorough": [job("sim", "mux", "verif", "c06", 16), job("dev", "mux", "dev", "c06", 8, extra=["--scale", "0.05"]), job("micro-close", "mux", "verif", "c12", 16, extra=["--only", "close"]), job("thr-abort", "mux", "verif", "c06", 16, extra=["--engine", "thr"])],
         },
         "required_targets": {"any": ['aborts', 'id_reuses', 'leak_probes', 'held_handle_probes']},
-        "assumptions": COMMON_ASSUMPTIONS + SIM_ASSUMPTIONS + ['flow tables are read through the verif_flow_ids accessor only at quiescent points (1 ms of virtual time with nothing runnable); a table entry is a leak iff neither application holds a stream with that id', 'a handle held after a graceful end keeps its id in the flow table unless a Reset of that flow crossed the wire (the peer answers a late Acknowledge with one); only then is the id forced on the other end', 'the abort that crosses a writer parked at zero credit on another thread is decided by the MICRO engine (the hook-order enumeration of C12 restricted to the configurations in which the connection task closes the stream)', 'freed ids are re-issued only at quiescent points: in-flight frames of the previous incarnation are not demanded to be harmless (the protocol has no generation numbers)', "a stream that was finished and then dropped before reading everything sends no Reset; the peer's blocked writer is then an 'absent reader' case and is not demanded to be released"],
+        "assumptions": COMMON_ASSUMPTIONS + SIM_ASSUMPTIONS + ['flow tables are read through the verif_flow_ids accessor only at quiescent points (1 ms of virtual time with nothing runnable); a table entry is a leak iff neither application holds a stream with that id', 'a handle held after a graceful end keeps its id in the flow table unless a Reset of that flow crossed the wire (the peer answers a late Acknowledge with one); only then is the id forced on the other end', 'the abort that crosses a writer parked at zero credit on another thread is decided by the MICRO engine (the hook-order enumeration of C12 restricted to the configurations in which the connection task closes the stream)', 'freed ids are re-issued only at quiescent points: in-flight frames of the previous incarnation are not demanded to be harmless (the protocol has no generation numbers)', "a stream that was finished and then dropped before reading everything sends no Reset; the peer's blocked writer is then an 'absent reader' case and is not demanded to be released", "job thr-abort: streams opened, written to and dropped unfinished by four tasks on a 6-worker runtime (1600 aborts per run); judged by final state only: one Reset of the flow on the wire per abort, flow table empty (bounded wait of 20 s for an otherwise idle endpoint)"],
     },
     "C07": {
         "level": "exploration",
